@@ -69,7 +69,7 @@ PARSE_RULES = [
 TOK_IS_DASH = "(vx_len == 1 && vx_s[0] == '-')"
 VALID = 'spec_ptr_is_array_index(vx_s, vx_len, vx_k)'
 RESOLVE_CONTRACT = [
-    ('requires', '*ec_p == 0 && vx_visits == 0 && vx_h == 0 && vx_h_i == 0 && vx_len <= SPEC_INT_MAXLEN && __CPROVER_r_ok(vx_s, vx_len)'),
+    ('requires', '*ec_p == 0 && vx_visits == 0 && vx_key_visits == 0 && vx_h == 0 && vx_h_i == 0 && vx_len <= SPEC_INT_MAXLEN && __CPROVER_r_ok(vx_s, vx_len)'),
     ('assigns', '*ec_p, vx_visits, vx_visited, vx_key_visits, vx_h, vx_h_i'),
     ('ensures', '[C14] array, token "-": refers to the (nonexistent) element after the last one -> index_exceeds_array_size, nothing selected',
      '(vx_is_array && %s) ==> (*ec_p == jsonpointer_errc_index_exceeds_array_size && vx_visits == 0)' % TOK_IS_DASH),
@@ -85,20 +85,78 @@ RESOLVE_CONTRACT = [
     ('ensures', '[C14] object: the member is looked up by the token itself (no index interpretation); missing member -> key_not_found',
      '(!vx_is_array && vx_is_object) ==> (vx_visits == 0 && (vx_contains ? (vx_key_visits == 1 && *ec_p == 0) : (vx_key_visits == 0 && *ec_p == jsonpointer_errc_key_not_found)))'),
 ]
+N = 12   # token-level re-spellings: any number of occurrences (the ghost events decide what the code did, not the count of spellings)
 RESOLVE_RULES = [
-    (r'current->is_array\(\)', 'vx_is_array', 1), (r'current->is_object\(\)', 'vx_is_object', 1),
-    (r'buffer\.size\(\)', 'vx_len', 1), (r'buffer\.length\(\)', 'vx_len', 2), (r'buffer\[0\]', 'vx_s[0]', 2), (r'buffer\.data\(\)', 'vx_s', 1),
-    (r'std::size_t index\{0\};', 'uint64_t index = 0;', 1),
+    (r'current->is_array\(\)', 'vx_is_array', 1, N), (r'current->is_object\(\)', 'vx_is_object', 1, N),
+    (r'buffer\.size\(\)', 'vx_len', 0, N), (r'buffer\.length\(\)', 'vx_len', 0, N), (r'buffer\[(\w+)\]', r'vx_s[\1]', 0, N), (r'buffer\.data\(\)', 'vx_s', 0, N),
+    (r'buffer\.empty\(\)', '(vx_len == 0)', 0, N), (r'buffer\.front\(\)', 'vx_s[0]', 0, N),
+    (r'std::size_t index\{0?\};', 'uint64_t index = 0;', 1),
     (r'auto result = jsoncons::dec_to_integer\(', 'struct to_number_result result = dec_to_integer_u64(', 1),
     (r', index\);', ', &index);', 1),
-    (r'!result\b', '(result.ec != VX_ERRC_ok)', 1),
-    (r'current->size\(\)', 'vx_size', 1),
-    (r'current = std::addressof\(current->at\(index\)\);', 'VX_AT(index);', 1),
-    (r'!current->contains\(buffer\)', '!vx_contains', 1),
-    (r'current = std::addressof\(current->at\(buffer\)\);', 'VX_AT_KEY();', 1),
-    (r'jsonpointer_errc::(\w+)', r'jsonpointer_errc_\1', 5),
-    (r'return current;', 'return;', 6),
+    (r'!result\b', '(result.ec != VX_ERRC_ok)', 0, N), (r'(?<![.\w!])result(?=\s*(\)|&&|\|\|))', '(result.ec == VX_ERRC_ok)', 0, N),
+    (r'current->size\(\)', 'vx_size', 0, N),
+    (r'current = std::addressof\(current->at\(index\)\);', 'VX_AT(index);', 0, 1),
+    (r'current = std::addressof\(current->at\(buffer\)\);', 'VX_AT_KEY();', 0, 1),
+    # edits of the final step (add / add_if_absent / replace / remove): observation calls (DESIGN 3.3 R5 program slices)
+    (r'current->emplace_back\(std::forward<T>\(value\)\);', 'VX_APPEND();', 0, N),
+    (r'current = std::addressof\(current->at\(vx_size-1\)\);', '', 0, N),
+    (r'auto it2 = current->insert\(current->array_range\(\)\.begin\(\)\+index,\s*std::forward<T>\(value\)\);', 'VX_INSERT(index);', 0, N),
+    (r'current = std::addressof\(\*it2\);', '', 0, N),
+    (r'current->erase\(current->array_range\(\)\.begin\(\)\+index\);', 'VX_ERASE(index);', 0, N),
+    (r'current->at\(index\) = std::forward<T>\(value\);', 'VX_ASSIGN(index);', 0, N),
+    (r'auto r = current->insert_or_assign\(buffer,\s*std::forward<T>\(value\)\);', 'VX_OBJ_SET();', 0, N),
+    (r'(auto r = )?current->try_emplace\(buffer,\s*(std::forward<T>\(value\)|Json\(\))\);', 'VX_OBJ_ADD();', 0, N),
+    (r'current = std::addressof\(r\.first->value\(\)\);', '', 0, N),
+    (r'current->erase\(buffer\);', 'VX_OBJ_ERASE();', 0, N),
+    (r'current->contains\(buffer\)', 'vx_contains', 0, N),
+    (r'jsonpointer_errc::(\w+)', r'jsonpointer_errc_\1', 1, 20),
+    (r'return current;', 'return;', 0, N),
+    (r'(?<![.\w])ec = ', '(*ec_p) = ', 1, 20),
 ]
+REQ = '*ec_p == 0 && vx_visits == 0 && vx_key_visits == 0 && VX_NOMOD() && vx_h == 0 && vx_h_i == 0 && vx_len <= SPEC_INT_MAXLEN && __CPROVER_r_ok(vx_s, vx_len)'
+ASG = '*ec_p, vx_visits, vx_visited, vx_key_visits, vx_h, vx_h_i, vx_appends, vx_inserts, vx_erases, vx_assigns, vx_mod_index, vx_obj_sets, vx_obj_adds, vx_obj_erases'
+BELOW = lambda bound: '(vx_len <= 20 && vx_h_i == vx_len && vx_h %s)' % bound
+NOTBELOW = lambda bound: '(vx_len > 20 || vx_h_i != vx_len || !(vx_h %s))' % bound
+def edit_contract(kind):
+    """final step of add / add_if_absent ('insert'), remove ('erase'), replace ('assign')"""
+    ev = {'insert': 'vx_inserts', 'erase': 'vx_erases', 'assign': 'vx_assigns'}[kind]
+    c = [('requires', REQ), ('assigns', ASG)]
+    if kind == 'insert':
+        c += [('ensures', '[C14] array, token "-": the value is appended after the last element (RFC 6902 use of the "-" token), nothing else is touched',
+               '(vx_is_array && %s) ==> (*ec_p == 0 && vx_appends == 1 && VX_MODS() == 1)' % TOK_IS_DASH),
+              ('ensures', '[C14] array, valid index equal to the array size: appended', '(vx_is_array && %s && %s) ==> (*ec_p == 0 && vx_appends == 1 && VX_MODS() == 1)' % (VALID, BELOW('== (spec_u128)vx_size'))),
+              ('ensures', '[C14] array, valid index below the size: inserted exactly there', '(vx_is_array && %s && %s) ==> (*ec_p == 0 && vx_inserts == 1 && VX_MODS() == 1 && (spec_u128)vx_mod_index == vx_h)' % (VALID, BELOW('< (spec_u128)vx_size'))),
+              ('ensures', '[C14] array, valid syntax but beyond the size (or not representable): an error, the document is untouched',
+               '(vx_is_array && %s && %s) ==> (*ec_p != 0 && VX_NOMOD())' % (VALID, NOTBELOW('<= (spec_u128)vx_size')))]
+    else:
+        c += [('ensures', '[C14] array, token "-": there is no such element -> index_exceeds_array_size, the document is untouched',
+               '(vx_is_array && %s) ==> (*ec_p == jsonpointer_errc_index_exceeds_array_size && VX_NOMOD())' % TOK_IS_DASH),
+              ('ensures', '[C14] array, valid index below the size: exactly that element is %s' % ('removed' if kind == 'erase' else 'replaced'),
+               '(vx_is_array && %s && %s) ==> (*ec_p == 0 && %s == 1 && VX_MODS() == 1 && (spec_u128)vx_mod_index == vx_h)' % (VALID, BELOW('< (spec_u128)vx_size'), ev)),
+              ('ensures', '[C14] array, valid syntax but not below the size (or not representable): an error, the document is untouched',
+               '(vx_is_array && %s && %s) ==> (*ec_p != 0 && VX_NOMOD())' % (VALID, NOTBELOW('< (spec_u128)vx_size')))]
+    c += [('ensures', '[C14] array, token not in the array-index syntax ("0" or digits without leading zero, or "-") -> invalid_index, the document is untouched',
+           '(vx_is_array && !%s && !%s) ==> (*ec_p == jsonpointer_errc_invalid_index && VX_NOMOD())' % (TOK_IS_DASH, VALID)),
+          ('ensures', '[C14] neither array nor object -> expected_object_or_array, untouched', '(!vx_is_array && !vx_is_object) ==> (*ec_p == jsonpointer_errc_expected_object_or_array && VX_NOMOD())'),
+          ('ensures', '[C14] an error leaves the document untouched; success modifies exactly one location', '(*ec_p != 0 ==> VX_NOMOD()) && (*ec_p == 0 ==> VX_MODS() == 1)')]
+    return c
+OBJ = '(!vx_is_array && vx_is_object)'
+ADD_OBJ = [('ensures', '[C14] object: the member named by the token is set (added or replaced)', '%s ==> (*ec_p == 0 && vx_obj_sets == 1 && VX_MODS() == 1)' % OBJ)]
+ADDIF_OBJ = [('ensures', '[C14] object: an existing member is key_already_exists and stays; a missing one is added',
+              '%s ==> (vx_contains ? (*ec_p == jsonpointer_errc_key_already_exists && VX_NOMOD()) : (*ec_p == 0 && vx_obj_adds == 1 && VX_MODS() == 1))' % OBJ)]
+REMOVE_OBJ = [('ensures', '[C14] object: a missing member is key_not_found; an existing one is erased',
+               '%s ==> (vx_contains ? (*ec_p == 0 && vx_obj_erases == 1 && VX_MODS() == 1) : (*ec_p == jsonpointer_errc_key_not_found && VX_NOMOD()))' % OBJ)]
+REPLACE_OBJ = [('ensures', '[C14] object: an existing member is replaced; a missing one is key_not_found unless create_if_missing',
+                '%s ==> (vx_contains ? (*ec_p == 0 && vx_obj_sets == 1 && VX_MODS() == 1) : (create_if_missing ? (*ec_p == 0 && vx_obj_adds == 1 && VX_MODS() == 1) : (*ec_p == jsonpointer_errc_key_not_found && VX_NOMOD())))' % OBJ)]
+RESOLVE_MUT_CONTRACT = [c for c in RESOLVE_CONTRACT if not (c[0] == 'ensures' and 'object: the member' in c[1])]
+RESOLVE_MUT_CONTRACT = [(c[0], REQ) if c[0] == 'requires' else ((c[0], ASG) if c[0] == 'assigns' else c) for c in RESOLVE_MUT_CONTRACT] + [
+    ('ensures', '[C14] object: an existing member is entered; a missing one is key_not_found unless create_if_missing (then it is created and entered)',
+     '%s ==> (vx_visits == 0 && (vx_contains ? (vx_key_visits == 1 && *ec_p == 0 && VX_NOMOD()) : (create_if_missing ? (*ec_p == 0 && vx_obj_adds == 1 && VX_MODS() == 1) : (*ec_p == jsonpointer_errc_key_not_found && VX_NOMOD()))))' % OBJ),
+    ('ensures', '[C14] resolving through an array never modifies it', 'vx_is_array ==> VX_NOMOD()'),
+]
+SLICE = r'if \(current->is_array\(\)\)'
+def final_step(name, anchor, csig, contract):
+    return FuncSpec(name, JP, anchor, count=1, csig=csig, contract=contract, rules=RESOLVE_RULES, slice_from=SLICE)
 
 SPECS = [
     DeclSpec('dec_contract_decl', 'dec_to_integer_u64', 'struct to_number_result dec_to_integer_u64(const char* s, size_t length, uint64_t* value_p)', _int.DEC_U64, 'integers'),
@@ -118,16 +176,27 @@ SPECS = [
     FuncSpec('parse', JP, r'static basic_json_pointer parse\(const string_view_type& input, std::error_code& ec\)', count=1,
              csig='void parse(int* ec_p)', contract=PARSE_CONTRACT, aliases={'ec': '(*ec_p)'}, rules=PARSE_RULES, loops={0: PARSE_LOOP, 'count': 1}),
     FuncSpec('resolve_get', JP, r'const Json\* resolve\(const Json\* current, const typename Json::string_view_type& buffer, std::error_code& ec\)', count=1,
-             csig='void resolve_get(int* ec_p)', contract=RESOLVE_CONTRACT, rules=RESOLVE_RULES + [(r'(?<![.\w])ec = ', '(*ec_p) = ', 5)]),
+             csig='void resolve_get(int* ec_p)', contract=RESOLVE_CONTRACT, rules=RESOLVE_RULES),
+    FuncSpec('resolve_mut', JP, r'Json\* resolve\(Json\* current, const typename Json::string_view_type& buffer, bool create_if_missing, std::error_code& ec\)', count=1,
+             csig='void resolve_mut(bool create_if_missing, int* ec_p)', contract=RESOLVE_MUT_CONTRACT, rules=RESOLVE_RULES),
+    final_step('add_final', r'void add\(Json& root,\s*const basic_json_pointer<typename Json::char_type>& location,\s*T&& value,\s*bool create_if_missing,\s*std::error_code& ec\)',
+               'void add_final(bool create_if_missing, int* ec_p)', edit_contract('insert') + ADD_OBJ),
+    final_step('add_if_absent_final', r'void add_if_absent\(Json& root,\s*const basic_json_pointer<typename Json::char_type>& location,\s*T&& value,\s*bool create_if_missing,\s*std::error_code& ec\)',
+               'void add_if_absent_final(bool create_if_missing, int* ec_p)', edit_contract('insert') + ADDIF_OBJ),
+    final_step('remove_final', r'void remove\(Json& root, const basic_json_pointer<typename Json::char_type>& location, std::error_code& ec\)',
+               'void remove_final(int* ec_p)', edit_contract('erase') + REMOVE_OBJ),
+    final_step('replace_final', r'void replace\(Json& root,\s*const basic_json_pointer<typename Json::char_type>& location,\s*T&& value,\s*bool create_if_missing,\s*std::error_code& ec\)',
+               'void replace_final(bool create_if_missing, int* ec_p)', edit_contract('assign') + REPLACE_OBJ),
 ]
 SITE_CHECKS = [
-    {'file': JP, 'pattern': r"if \(!result \|\| \(buffer\.length\(\) > 1 && buffer\[0\] == '0'\)\)", 'count': 6, 'props': ['C14'],
-     'what': 'all six array-index sites (resolve x2, add, add_if_absent, replace, remove) apply the same syntax test as the verified resolve'},
+    {'file': JP, 'pattern': r'jsoncons::dec_to_integer\(buffer\.data\(\), buffer\.length\(\), index\)', 'count': 6, 'props': ['C14'],
+     'what': 'array indices are converted at exactly six sites (resolve x2, add, add_if_absent, remove, replace): each of them is a function under contract in this unit'},
 ]
 HARNESSES = [
     Harness('escape', 'h_escape', enforce='escape', loop_contracts=True, method='LC', props=['C14'], expect_classes={'loop_invariant_step': 1}),
     Harness('escape_string', 'h_escape_string', enforce='escape_string', loop_contracts=True, method='LC', props=['C14'], expect_classes={'loop_invariant_step': 1}),
     Harness('to_string_token', 'h_to_string_token', enforce='to_string_token', loop_contracts=True, method='LC', props=['C14'], expect_classes={'loop_invariant_step': 1}),
     Harness('parse', 'h_parse', enforce='parse', loop_contracts=True, method='LC', props=['C14'], expect_classes={'loop_invariant_step': 1}, timeout=900),
-    Harness('resolve_get', 'h_resolve_get', enforce='resolve_get', replace=['dec_to_integer_u64'], method='WU(26)', unwind=26, props=['C14']),
-]
+] + [Harness(n, 'h_' + n, enforce=n, replace=['dec_to_integer_u64'], method='WU(26)', unwind=26, props=['C14'],
+             note=('array/object step of the final reference token; the loop over the earlier tokens (calls of resolve, itself under contract) is dropped' if n.endswith('_final') else ''))
+     for n in ('resolve_get', 'resolve_mut', 'add_final', 'add_if_absent_final', 'remove_final', 'replace_final')]
